@@ -3,8 +3,10 @@ package c13
 // File-based loading under the scheduler (second clause of C13: "a lazily file-loaded definition is instantiated exactly
 // once").
 //
-//   C13 files (files xN*) (threads (th (load xN)*) …) (sched T*)
+//   C13 files (files xN*) (threads (th STEP*) …) (sched T*)      STEP ::= (load xN) | (loadp xN)
 //
+// (load xN) looks N up through the file-based loader, (loadp xN) through its PARENT (a plain parented loader: the lookup
+// misses and leaves a miss marker there, which must not hide the file from a later lookup through the file-based loader).
 // Every name N is a single ASCII letter.  A directory is made with one file types/<n>.pp = `type <N> = Integer[i,i]` per
 // listed name (i = its position, from 1); ONE file-based loader over it (its parent: a fresh parented loader over the
 // static loader); every thread loads names (of either letter case) through a context of its own whose loader it is.
@@ -17,6 +19,7 @@ package c13
 // the C15 hook loader.VerifReads).
 // Predicate classes: `instantiated-twice` (a file was read more than once), `not-linearizable-placeholder-visible` (a
 // lookup of a name that HAS a file answered not-found: it met the placeholder of an instantiation in progress),
+// `file-hidden` (the same answer with no instantiation in progress — e.g. a miss marker of the parent hiding the file),
 // `disagree` (an answer is not the file's definition, or a name without a file was found), `crash`.
 
 import (
@@ -58,18 +61,22 @@ func execFiles(args []sx.Sexp) core.Result {
 		files = append(files, n)
 	}
 	var progs [][]string
+	var viaParent [][]bool
 	for _, t := range args[1].Args() {
 		if t.Tag() != "th" {
 			return core.Result{Out: "bad-op", Pred: "n/a"}
 		}
 		p := []string{}
+		vp := []bool{}
 		for _, o := range t.Args() {
-			if o.Tag() != "load" || len(o.Args()) != 1 {
+			if (o.Tag() != "load" && o.Tag() != "loadp") || len(o.Args()) != 1 {
 				return core.Result{Out: "bad-op", Pred: "n/a"}
 			}
 			p = append(p, letter(o.Args()[0]))
+			vp = append(vp, o.Tag() == "loadp")
 		}
 		progs = append(progs, p)
+		viaParent = append(viaParent, vp)
 	}
 	if len(progs) == 0 {
 		return core.Result{Out: "bad-op", Pred: "n/a"}
@@ -105,10 +112,19 @@ func execFiles(args []sx.Sexp) core.Result {
 			}
 		}
 	}
-	fb := px.NewFileBasedLoader(px.NewParentedLoader(px.StaticLoader()), dir, "", px.PuppetDataTypePath)
+	parent := px.NewParentedLoader(px.StaticLoader())
+	fb := px.NewFileBasedLoader(parent, dir, "", px.PuppetDataTypePath)
 	ctxs := make([]px.Context, len(progs))
+	pctxs := make([]px.Context, len(progs))
 	for t := range progs {
 		ctxs[t] = pcore.NewContext(fb, pcore.Logger())
+		pctxs[t] = pcore.NewContext(parent, pcore.Logger())
+	}
+	// raced[t][i]: while step i of thread t ran, another thread was parked between the placeholder and the instantiator
+	// of the same name (the situation of the known finding)
+	raced := make([][]bool, len(progs))
+	for t := range progs {
+		raced[t] = make([]bool, len(progs[t]))
 	}
 	loader.VerifResetReads()
 	accept := func(site string) bool {
@@ -117,6 +133,14 @@ func execFiles(args []sx.Sexp) core.Result {
 	// a thread parked at the entry of instantiate would block in nameLock.Lock() while another thread is parked between
 	// the placeholder and the instantiator of the same name (it holds the name's mutex): such a thread is not released
 	blocked := func(t int, parkedAt []string, curStep []int) bool {
+		// (asked before every release of t: also the place to note what t's current step runs against)
+		if curStep[t] < len(progs[t]) {
+			for u := range progs {
+				if u != t && parkedAt[u] == "filebased.instantiate.placeholder" && strings.EqualFold(progs[u][curStep[u]], progs[t][curStep[t]]) {
+					raced[t][curStep[t]] = true
+				}
+			}
+		}
 		if parkedAt[t] != "filebased.instantiate.enter" {
 			return false
 		}
@@ -131,7 +155,11 @@ func execFiles(args []sx.Sexp) core.Result {
 	outs, sites, preempted := runThreadsB(len(progs), accept, blocked, func(t int) int { return len(progs[t]) }, func(t, i int) string {
 		var v interface{}
 		var ok bool
-		if r := c12.Safely(func() { v, ok = px.Load(ctxs[t], px.NewTypedName(px.NsType, progs[t][i])) }); r != "" {
+		ctx := ctxs[t]
+		if viaParent[t][i] {
+			ctx = pctxs[t]
+		}
+		if r := c12.Safely(func() { v, ok = px.Load(ctx, px.NewTypedName(px.NsType, progs[t][i])) }); r != "" {
 			return r
 		}
 		if ok {
@@ -170,10 +198,15 @@ func execFiles(args []sx.Sexp) core.Result {
 		for i, o := range outs[t] {
 			n := strings.ToLower(progs[t][i])
 			idx, has := index[n]
+			if viaParent[t][i] {
+				has = false // the parent binds nothing
+			}
 			want := fmt.Sprintf("found (al %s %d)", sx.Str(strings.ToUpper(n)), idx)
 			switch {
 			case o == "fault" || strings.HasPrefix(o, "reported"):
 				return fail("crash", fmt.Sprintf("thread %d step %d (load %s) ended in %s", t, i, progs[t][i], o))
+			case has && o == "notfound" && !raced[t][i]:
+				return fail("file-hidden", fmt.Sprintf("thread %d step %d: %s has a file and no instantiation of it is in progress, yet the lookup through the file-based loader answered not-found", t, i, n))
 			case has && o == "notfound":
 				return fail("not-linearizable-placeholder-visible", fmt.Sprintf("thread %d step %d: %s has a file, yet the lookup answered not-found (no sequential order gives that)", t, i, n))
 			case has && o != want, !has && o != "notfound":
@@ -198,9 +231,22 @@ func genFiles(g *core.G) {
 	th := func(p []string) string {
 		s := make([]string, len(p))
 		for i, n := range p {
-			s[i] = "(load " + n + ")"
+			if strings.HasPrefix(n, "p") {
+				s[i] = "(loadp " + n[1:] + ")"
+			} else {
+				s[i] = "(load " + n + ")"
+			}
 		}
 		return "(th " + strings.Join(s, " ") + ")"
+	}
+	// a miss through the parent, then the lookup through the file-based loader (sequential, and against a second thread)
+	for _, a := range []string{"x61", "x41", "x62"} {
+		for _, b := range []string{"x61", "x41", "x62"} {
+			g.Emit("files (files x61) (threads " + th([]string{"p" + a, b, b}) + ") (sched)")
+			interleavings([]int{4, 8}, func(s []int) {
+				g.Emit("files (files x61) (threads " + th([]string{"p" + a}) + " " + th([]string{b, b}) + ") " + schedStr(s))
+			})
+		}
 	}
 	for i, p := range progs {
 		for j, q := range progs {
@@ -234,7 +280,11 @@ func genFiles(g *core.G) {
 		for t := 0; t < nt; t++ {
 			var p []string
 			for j, m := 0, 1+r.Intn(3); j < m; j++ {
-				p = append(p, all[r.Intn(len(all))])
+				n := all[r.Intn(len(all))]
+				if r.Intn(5) == 0 {
+					n = "p" + n
+				}
+				p = append(p, n)
 				total += 4
 			}
 			ths = append(ths, th(p))
